@@ -25,6 +25,8 @@ Rules(c) ==
       delivered == LET hs == SelectSeq(hooks, LAMBDA h : h.a = "SendExtensionData" /\ h.x = "dt") IN [i \in 1..Len(hs) |-> hs[i].n]
   IN IF IsReopen(c)
      THEN (IF Len(reqs) <= 2 /\ (Len(reqs) = 2 => (Len(cancels) >= 1 /\ cancels[1].r = reqs[1].r /\ cancels[1].seq < reqs[2].seq)) THEN {} ELSE {"C10.cancelFirst"})
+          (* the previous request could not be cancelled (gs.Cancel returned an error other than not-found): it may still be live, no second request is started *)
+          \cup (IF (\E i \in 1..Len(c.steps) : c.steps[i].a.op = "CancelRet" /\ c.steps[i].a.cret = "err") => Len(reqs) <= 1 THEN {} ELSE {"C10.noRequestWhileOldLive"})
           \cup (IF Len(reqs) = 2 => ((reqs[2].x = "dt+dnsfb" /\ reqs[2].n = kval) \/ (kval = 0 /\ reqs[2].x = "dt")) THEN {} ELSE {"C10.skip"})
           \cup (IF Len(reqs) = 2 => reqs[2].t - reqs[1].t <= 1000 THEN {} ELSE {"C10.reopenWaitBounded"})
      ELSE (IF delivered = queued THEN {} ELSE {"C10.pendingOnce"})
